@@ -133,6 +133,18 @@ func init() {
 		return r
 	})
 	// "rel=chunks|rel=chunks" loaded in order into a fresh reader, then ReadValue(vis,tail)
+	// one reader, three resolutions in a row (pointer A, pointer B, pointer A again)
+	register("ReadValueSeq", func(a []string) string {
+		rd := pgdump.NewTOASTReader()
+		if a[0] != "-" {
+			for _, part := range strings.Split(a[0], "|") {
+				kv := strings.SplitN(part, "=", 2)
+				pgdump.VerifTOASTReaderSetChunks(rd, c08U32(kv[0]), c08Chunks(kv[1]))
+			}
+		}
+		pa, pb := unhex(a[1]), unhex(a[2])
+		return c08Val(rd.ReadValue(pa)) + ";" + c08Val(rd.ReadValue(pb)) + ";" + c08Val(rd.ReadValue(pa))
+	})
 	register("ReadValue", func(a []string) string {
 		rd := pgdump.NewTOASTReader()
 		if a[0] != "-" {
